@@ -82,6 +82,13 @@ CLAIMS = {
               "proved FALSE in general (C15_cover_full_false): with C08's overtaking schedule a write below the checkpoint is skipped - "
               "replayed on the real code through post.before and recorded as a known finding.",
               note="Partial: coverage fails under concurrent writers (F16)."),
+ "C16": claim("Proved on the lifecycle model: an ended feed stays ended; its terminator, its collection's drop, bucket deletion and the last close "
+              "of an on-disk bucket end it whichever handle they come through; a terminator ends only its own feed, a drop only that "
+              "collection's feeds, closing a non-last handle (or any handle of an in-memory bucket) ends nothing; a stopped feed is given no "
+              "further event. Goroutine-level facts (done closed exactly once, no callback after done) are observed on the real code: "
+              "lifecycle scenarios on both bucket kinds compare the done state of every feed after every event with the model and probe that "
+              "surviving feeds still receive events.",
+              note="Partial: goroutine liveness is observed, not proved."),
  "C17": claim("Proved: every single-row entry point either changes no row or raises the addressed key's revSeqNo by exactly one (1 for a key "
               "without a row), live and backfill events and the virtual xattrs report the stored number. Compound calls via correspondence + monitor."),
 }
